@@ -85,6 +85,8 @@ class Runner(object):
         self.copy_event = None
         self.last_all_ids = set()
         self.track_pairs = False
+        self.accessor_sweep = False
+        self.ro_sweep = []
 
     def sha(self):
         import hashlib
@@ -301,11 +303,31 @@ class Runner(object):
             gc.collect()
             self.check_ro_bytes()
             self.readonly = bool(op[1])
+            rw_sweep = None
+            if self.readonly and self.accessor_sweep:
+                # every read accessor of every entity, in a WRITABLE session on a byte-identical copy ...
+                import shutil
+                import accessors
+                cp = self.path + ".rwcopy.nix"
+                shutil.copyfile(self.path, cp)
+                try:
+                    g = nixio.File.open(cp, nixio.FileMode.ReadWrite, auto_update_timestamps=auto)
+                    rw_sweep = accessors.sweep(g)
+                    g.close()
+                finally:
+                    os.remove(cp)
             if self.readonly:
                 self.ro_sha = self.sha()
             self.f = nixio.File.open(self.path, nixio.FileMode.ReadOnly if op[1] else nixio.FileMode.ReadWrite,
                                      auto_update_timestamps=auto)
             self.handles = [("File", self.f, None)]
+            if rw_sweep is not None:
+                # ... and in the read-only session: the answers must be the same
+                import accessors
+                ro_sweep = accessors.sweep(self.f)
+                diffs = [[k, rw_sweep.get(k, "absent"), ro_sweep.get(k, "absent")]
+                         for k in sorted(set(rw_sweep) | set(ro_sweep)) if rw_sweep.get(k, "absent") != ro_sweep.get(k, "absent")]
+                self.ro_sweep.append({"step": self.step, "accessors": len(ro_sweep), "diffs": diffs[:5], "ndiffs": len(diffs)})
             return 0
         raise RuntimeError("unknown op %r" % (op,))
 
@@ -1068,6 +1090,7 @@ def gen_history(seed, length, profile, workdir, with_times, k):
     path = os.path.join(workdir, "h%d.nix" % k)
     r = Runner(path, with_times)
     r.track_pairs = bool(profile.get("track_pairs"))
+    r.accessor_sweep = bool(profile.get("accessor_sweep"))
     g = Gen(rnd, r, profile)
     ops = []
     results = []
@@ -1084,6 +1107,11 @@ def gen_history(seed, length, profile, workdir, with_times, k):
             g.dead = set()
         g.note(op, res)
         g.refresh_dead()
+    if profile.get("accessor_sweep") and not r.readonly:
+        # end every history with a read-only reopen, so that the accessor sweep sees the file when it is fullest
+        op = ("reopen", True)
+        ops.append(op)
+        results.append(r.run_op(op))
     xfile = r.cross_file_phase(path + ".copy.nix") if profile.get("xfile") else None
     r.close()
     try:
@@ -1091,7 +1119,7 @@ def gen_history(seed, length, profile, workdir, with_times, k):
     except OSError:
         pass
     return {"xfile": xfile, "ops": ops, "results": results, "trace": r.trace, "ro_violations": r.ro_violations, "infos": r.infos, "target_ids": r.target_ids,
-            "walks": r.walks if profile.get("keep_walks") else None}
+            "ro_sweep": r.ro_sweep, "walks": r.walks if profile.get("keep_walks") else None}
 
 
 def replay_history(ops, workdir, with_times, k=0):
